@@ -23,7 +23,8 @@ import random, warnings
 import numpy as np
 
 GRAPHS = {2: [[[2], []], [[], [1]], [[2], [1]]],
-          3: [[[2, 3], [3], []], [[2], [3], []], [[3], [3], []], [[2], [3], [1]]]}
+          3: [[[2, 3], [3], []], [[2], [3], []], [[3], [3], []], [[2], [3], [1]]],
+          4: [[[2, 3, 4], [], [], []], [[2, 3, 4], [3, 4], [4], []], [[2, 3], [3, 4], [4], []]]}
 
 
 def _num(x):
@@ -244,13 +245,16 @@ def run(ctx):
     sim = ctx.tlc("ObjHistory", cfg="ObjHistory.sim.cfg", mode="simulate", simulate="num=%d" % (60 if ctx.tier == "quick" else 1500),
                   depth=8, workers=1, seed=ctx.seed + 1, timeout=1200)
     simcases = sim.cases
+    sim4 = ctx.tlc("ObjHistory", cfg="ObjHistory.sim4.cfg", mode="simulate", simulate="num=%d" % (40 if ctx.tier == "quick" else 800),
+                   depth=7, workers=1, seed=ctx.seed + 2, timeout=1200)
+    simcases = simcases + sim4.cases
     nq, ns = (260, 60) if ctx.tier == "quick" else (2500, 1200)
     plan = rnd.sample(cases, min(nq, len(cases))) + rnd.sample(simcases, min(ns, len(simcases)))
     sweeps = 20 if ctx.tier == "quick" else 300
     for i, c in enumerate(plan):
         graphs = GRAPHS[c["n"]]
         par = graphs[i % len(graphs)]
-        r = (i // len(graphs)) % 2
+        r = (i // len(graphs)) % 3
         ctx.case(("objhist", str(par), r, str(c["hist"])))
         replay_case(ctx, c, par, r, sweeps if i % 7 == 0 else 5, 9000 + ctx.seed)
     need = {"action/condition", "action/to_likelihood", "action/copy_enable_fd", "action/apply_model", "action/logd",
